@@ -218,18 +218,33 @@ func runC20(c *Ctx) {
 	c.Check(okArg, "R3.loop", "ServeAgent|broadcast code is the request's first byte", w.Pos(bc.Pos()), "Broadcast(req[0])", "the code broadcast is not the first byte of the request just read: "+w.Short(bc.Call.Args[1]))
 	// dispatch point: first comparison of req[0] with a constant that is not the Broadcast argument's block
 	var dispatch *ssa.BasicBlock
-	for _, b := range serve.Blocks {
+	var dispatchBlocks []*ssa.BasicBlock
+	for _, tf := range w.Tree(serve) {
+		if tf == serve || w.transparent(tf) {
+			dispatchBlocks = append(dispatchBlocks, tf.Blocks...)
+		}
+	}
+	for _, b := range dispatchBlocks {
 		for _, ins := range b.Instrs {
 			bin, ok := ins.(*ssa.BinOp)
 			if !ok || bin.Op != token.EQL {
 				continue
 			}
 			if _, isK := intConst(bin.Y); isK && strings.HasSuffix(w.Expr(bin.X), "yubiagent.read>(p1)#0[const(0)]") {
-				if dispatch == nil || b.Dominates(dispatch) {
+				if dispatch == nil || (b.Parent() == dispatch.Parent() && b.Dominates(dispatch)) {
 					dispatch = b
 				}
 			}
 		}
+	}
+	// a dispatch made in a helper is located, in ServeAgent, at the call that leads to it
+	for hop := 0; hop < 3 && dispatch != nil && dispatch.Parent() != serve; hop++ {
+		sites := w.sitesIn(serve, dispatch.Parent())
+		if len(sites) != 1 {
+			dispatch = nil
+			break
+		}
+		dispatch = sites[0].Block()
 	}
 	if dispatch == nil {
 		c.Unresolved("R3.loop", "dispatch on the request's first byte in ServeAgent")
@@ -308,7 +323,8 @@ func runC20(c *Ctx) {
 	c.Check(!restricted, "R3.loop", "ServeAgent|every code is broadcast", w.Pos(bc.Pos()), "the broadcast does not depend on the code", "only some request codes are broadcast")
 	// wait arm
 	nWait := 0
-	for _, cv := range invokeOf(serve, "Wait") {
+	w.Focus(serve)
+	for _, cv := range w.invokeOfDeep(serve, "Wait") {
 		nWait++
 		c.Check(strings.HasSuffix(w.Expr(cv.Call.Args[0]), "yubiagent.read>(p1)#0[const(1)]"), "R3.loop", "ServeAgent|wait arm waits for the requested code", w.Pos(cv.Pos()), "agent.Wait(req[1])", "the wait arm does not wait on the second request byte: "+w.Short(cv.Call.Args[0]))
 	}
